@@ -65,7 +65,7 @@ Definition ex_tb : tables := {|
     {| s_actions := [None; Some (Reduce 1); None; None]; s_recover := false; s_gotos := [(-1)%Z; (-1)%Z] |} ];
   t_prods := [ {| p_nt := 0; p_len := 1; p_act := false |}; {| p_nt := 1; p_len := 2; p_act := true |};
                {| p_nt := 1; p_len := 1; p_act := true |} ];
-  t_err := 0 |}.
+  t_err := 0; t_gate := false |}.
 Definition ex_an : annot := {|
   a_items := [ [(0,0,1); (1,0,1); (2,0,1)]; [(0,1,1)]; [(1,1,1); (1,0,1); (2,0,1)]; [(2,1,1)]; [(1,2,1)] ];
   a_nullable := [false; false];
